@@ -21,10 +21,11 @@
 (*   una/unb = inputs of Merge(x,y) unchanged, un3 = x,y,z unchanged after l   *)
 EXTENDS Integers, Sequences, FiniteSets, TLC
 
-CONSTANTS MaxList
+CONSTANTS MaxList,  \* longest list
+          MaxV2     \* values of the second tag key: 0..MaxV2 (1 quick, 2 thorough)
 
 Kinds    == {"ov", "or", "lw", "map", "list"}
-MapVals  == { m \in (0..1) \X (0..2) \X (0..2) : m[1] = 1 => (m[2] = 0 /\ m[3] = 0) }
+MapVals  == { m \in (0..1) \X (0..2) \X (0..MaxV2) : m[1] = 1 => (m[2] = 0 /\ m[3] = 0) }
 ListVals == UNION { [1..n -> 1..2] : n \in 0..MaxList }
 
 Dom(k) == CASE k = "ov"   -> 0..2
